@@ -1,25 +1,492 @@
-//! C01 — not built yet (stub).
+//! C01 — commits are atomic and durable across crashes.
+//!
+//! One generated history (add/delete/commit/rollback/compact/reopen) is executed once on the real
+//! code over `FsStorage` with hook H1 recording every storage primitive.  The trace is turned
+//! into the model's `FsOp`s (contents as pieces = which part of which `write` call).
+//! (i) **Monitor**: the driver replays the trace through `SL.Fs.run` and evaluates the
+//! publication invariant (`publishInvB`) in every prefix state, with the manifests allowed in the
+//! call in progress, and `settledB` at every return — the hypothesis of `history_crash_atomic`.
+//! (ii) **Crash-image differential / finder**: at storage-operation boundaries the driver turns
+//! adversary choices (which unsynced directory entries survive, which prefix of unsynced writes,
+//! where a write is torn) into crash images; each is materialised from the recorded bytes, the
+//! real `Index::open` + reader + match-all is run on it, and the outcome is compared with the
+//! model's `recover` (correspondence) and with the property itself: the directory opens and its
+//! contents are those before the call in flight or that call's complete result.
+use crate::idx;
 use crate::proto::Driver;
 use crate::rng::Rng;
 use crate::summary::Summary;
+use crate::util::{guarded, scratch};
 use crate::{Prop, Tier};
+use searchlite_core::api::{Index, IndexWriter};
+use searchlite_core::storage::verif::{install, uninstall, FsEvent};
 use serde_json::{json, Value};
+use std::collections::{BTreeMap, BTreeSet};
+use std::path::{Path, PathBuf};
+use std::sync::{Arc, Mutex};
 
-pub struct Stub;
-pub static P: Stub = Stub;
+pub struct C01;
+pub static P: C01 = C01;
 
-impl Prop for Stub {
+type Contents = BTreeMap<String, String>;
+
+#[derive(Default)]
+pub struct Recorder {
+  pub root: PathBuf,
+  pub ops: Vec<Value>,
+  pub chunks: Vec<Vec<u8>>,
+  /// names that currently exist, with the pieces (chunk, total) written since their creation
+  pub shadow: BTreeMap<String, Vec<(usize, usize)>>,
+  /// (op index, chunk) of every complete write to the temporary manifest
+  pub manifest_writes: Vec<(usize, usize)>,
+  pub pending_write: Option<(String, Vec<u8>)>,
+  pub anomalies: Vec<String>,
+}
+
+pub fn model_name(p: &Path) -> String {
+  let n = p.file_name().map(|x| x.to_string_lossy().to_string()).unwrap_or_default();
+  if n == "MANIFEST.json" {
+    "MANIFEST".to_string()
+  } else {
+    n
+  }
+}
+
+impl Recorder {
+  pub fn on_event(&mut self, ev: &FsEvent) {
+    let name = model_name(&ev.path);
+    if !ev.after {
+      if ev.op == "write" {
+        self.pending_write = Some((name, ev.data.clone().unwrap_or_default()));
+      }
+      return;
+    }
+    match ev.op {
+      "create" => {
+        self.ops.push(json!({"op":"create","n":name}));
+        self.shadow.insert(name, Vec::new());
+      }
+      "open_append" => {
+        if !self.shadow.contains_key(&name) {
+          self.ops.push(json!({"op":"create","n":name}));
+          self.shadow.insert(name, Vec::new());
+        }
+      }
+      "write" => {
+        if let Some((n, data)) = self.pending_write.take() {
+          if n != name {
+            self.anomalies.push(format!("write event mismatch {n} vs {name}"));
+          }
+          let chunk = self.chunks.len() + 1;
+          let total = data.len();
+          self.chunks.push(data);
+          self.ops.push(json!({"op":"write","n":name,"chunk":chunk,"total":total}));
+          self.shadow.entry(name.clone()).or_default().push((chunk, total));
+          if name == "MANIFEST.tmp" {
+            self.manifest_writes.push((self.ops.len(), chunk));
+          }
+        }
+      }
+      "set_len" => {
+        self.ops.push(json!({"op":"set_len","n":name,"len":ev.len}));
+        if ev.len == 0 {
+          self.shadow.insert(name, Vec::new());
+        } else if let Some(ps) = self.shadow.get_mut(&name) {
+          let mut acc = 0usize;
+          let mut keep = 0;
+          for (_, t) in ps.iter() {
+            if acc + t <= ev.len as usize {
+              acc += t;
+              keep += 1;
+            }
+          }
+          ps.truncate(keep);
+        }
+      }
+      "sync" => self.ops.push(json!({"op":"fsync","n":name})),
+      "rename" => {
+        let to = ev.to.as_ref().map(|p| model_name(p)).unwrap_or_default();
+        self.ops.push(json!({"op":"rename","a":name,"b":to}));
+        if let Some(ps) = self.shadow.remove(&name) {
+          self.shadow.insert(to, ps);
+        }
+      }
+      "remove" => {
+        self.ops.push(json!({"op":"unlink","n":name}));
+        self.shadow.remove(&name);
+      }
+      "sync_dir" => self.ops.push(json!({"op":"fsync_dir"})),
+      _ => {}
+    }
+  }
+}
+
+pub fn install_recorder(root: &Path) -> Arc<Mutex<Recorder>> {
+  let rec = Arc::new(Mutex::new(Recorder { root: root.to_path_buf(), ..Default::default() }));
+  let r2 = rec.clone();
+  install(root.to_path_buf(), Arc::new(move |ev: &FsEvent| {
+    r2.lock().unwrap().on_event(ev);
+    Ok(())
+  }));
+  rec
+}
+
+fn live_bodies(idx: &Index) -> Result<Contents, String> {
+  let l = idx::live(idx)?;
+  Ok(l.into_iter().map(|(k, v)| (k, v["body"].as_str().unwrap_or("").to_string())).collect())
+}
+
+/// manifest registry entry from the bytes written to the temporary manifest
+fn manifest_entry(rec: &Recorder, chunk: usize, contents: usize, shadow_at: &BTreeMap<String, Vec<(usize, usize)>>) -> Value {
+  let bytes = &rec.chunks[chunk - 1];
+  let v: Value = serde_json::from_slice(bytes).unwrap_or(Value::Null);
+  let mut files = Vec::new();
+  for seg in v["segments"].as_array().cloned().unwrap_or_default() {
+    for k in ["terms", "postings", "docstore", "fast", "meta"] {
+      if let Some(p) = seg["paths"][k].as_str() {
+        let name = model_name(Path::new(p));
+        let pieces: Vec<Value> = shadow_at.get(&name).cloned().unwrap_or_default().iter().map(|(c, t)| json!([c, t, t])).collect();
+        files.push(json!({"name": name, "pieces": pieces}));
+      }
+    }
+  }
+  json!({"chunk": chunk, "size": bytes.len(), "files": files, "contents": contents})
+}
+
+struct CallRec {
+  from: usize,
+  to: usize,
+  pre_chunk: usize,
+  post_chunk: usize,
+  attempts: Vec<usize>,
+  pre_contents: usize,
+  post_contents: usize,
+  label: String,
+}
+
+fn materialise(dir: &Path, image: &Value, chunks: &[Vec<u8>]) {
+  let _ = std::fs::create_dir_all(dir);
+  if let Some(m) = image.as_object() {
+    for (name, content) in m {
+      if content.is_null() {
+        continue;
+      }
+      let mut bytes = Vec::new();
+      for p in content.as_array().cloned().unwrap_or_default() {
+        let c = p[0].as_u64().unwrap_or(0) as usize;
+        let kept = p[1].as_u64().unwrap_or(0) as usize;
+        if c >= 1 && c <= chunks.len() {
+          let b = &chunks[c - 1];
+          bytes.extend_from_slice(&b[..kept.min(b.len())]);
+        }
+      }
+      let fname = if name == "MANIFEST" { "MANIFEST.json" } else { name.as_str() };
+      let _ = std::fs::write(dir.join(fname), bytes);
+    }
+  }
+}
+
+impl Prop for C01 {
   fn id(&self) -> &'static str {
     "C01"
   }
   fn rule(&self) -> &'static str {
-    "stub"
+    "case = one generated history of add/delete/commit/rollback/compact/reopen calls executed on the real code with every storage primitive recorded; evaluations = (monitor) every prefix state of the trace checked by the model's publishInvB/settledB + (images) every (storage-operation boundary, adversary choice) crash image that is materialised and reopened with the real code; adversary choices per boundary: keep all, drop all unsynced, drop only entries, drop only data, each single unsynced directory entry dropped, each single one kept, the last unsynced write torn at 3 offsets, random mixes; a crash image is non-trivial when at least one directory entry or data operation was unsynced at that boundary; distinct = distinct (history, boundary, choice)"
   }
-  fn count(&self, _tier: Tier) -> usize {
-    0
+  fn count(&self, tier: Tier) -> usize {
+    tier.pick(6, 60)
   }
-  fn gen(&self, _rng: &mut Rng, _tier: Tier, _i: usize) -> Value {
-    json!(null)
+  fn gen(&self, rng: &mut Rng, tier: Tier, i: usize) -> Value {
+    let ids = ["a", "b", "c", "d", "e"];
+    let ncalls = 4 + rng.below(tier.pick(6, 10));
+    let mut calls = Vec::new();
+    let mut v = 0;
+    let mut since_commit = 0;
+    for _ in 0..ncalls {
+      v += 1;
+      let c = match rng.below(12) {
+        0..=4 => {
+          since_commit += 1;
+          let id = *rng.pick(&ids);
+          json!({"op":"add","id":id,"body":format!("v{v} rust")})
+        }
+        5 | 6 => {
+          since_commit += 1;
+          let id = *rng.pick(&ids);
+          json!({"op":"delete","id":id})
+        }
+        7 | 8 => {
+          since_commit = 0;
+          json!({"op":"commit"})
+        }
+        9 => json!({"op":"rollback"}),
+        10 => json!({"op":"compact"}),
+        _ => json!({"op":"reopen"}),
+      };
+      calls.push(c);
+    }
+    if since_commit > 0 {
+      calls.push(json!({"op":"commit"}));
+    }
+    if i % 2 == 0 {
+      calls.push(json!({"op":"add","id":"z","body":"zz"}));
+      calls.push(json!({"op":"commit"}));
+      calls.push(json!({"op":"compact"}));
+    }
+    json!({"calls": calls, "image_seed": rng.next() % 1000000, "boundary_stride": if i < 2 { 1 } else { 1 + rng.below(3) }})
   }
-  fn run_case(&self, _drv: &mut Driver, _case: &Value, _s: &mut Summary) {}
+
+  fn run_case(&self, drv: &mut Driver, case: &Value, s: &mut Summary) {
+    let case = if case.get("case").is_some() { &case["case"] } else { case };
+    let base = scratch();
+    let dir = base.path().join("idx");
+    let rec = install_recorder(&dir);
+    let mut contents_table: Vec<Contents> = vec![Contents::new()];
+    let mut calls_rec: Vec<CallRec> = Vec::new();
+    let mut manifests: Vec<Value> = Vec::new();
+    let calls = case["calls"].as_array().cloned().unwrap_or_default();
+    // ---- run the history
+    let dir2 = dir.clone();
+    let result = guarded(|| -> Result<(), String> {
+      let mut idx = Index::open(idx::opts(&dir2, false)).map_err(|e| format!("create: {e}"))?;
+      // the manifest written by creation
+      let (start_ops, first_chunk) = {
+        let r = rec.lock().unwrap();
+        (r.ops.len(), r.manifest_writes.last().map(|x| x.1).unwrap_or(0))
+      };
+      {
+        let r = rec.lock().unwrap();
+        let sh = r.shadow.clone();
+        manifests.push(manifest_entry(&r, first_chunk, 0, &sh));
+      }
+      calls_rec.push(CallRec { from: start_ops, to: start_ops, pre_chunk: first_chunk, post_chunk: first_chunk, attempts: vec![], pre_contents: 0, post_contents: 0, label: "create".into() });
+      let mut cur_chunk = first_chunk;
+      let mut cur_contents = 0usize;
+      let mut w: Option<IndexWriter> = None;
+      for c in calls.iter() {
+        let op = c["op"].as_str().unwrap_or("");
+        let from = rec.lock().unwrap().ops.len();
+        let nman = rec.lock().unwrap().manifest_writes.len();
+        if w.is_none() && matches!(op, "add" | "delete" | "commit" | "rollback") {
+          w = Some(idx.writer().map_err(|e| format!("writer: {e}"))?);
+        }
+        match op {
+          "add" => {
+            w.as_mut().unwrap().add_document(&idx::doc(&json!({"_id": c["id"], "body": c["body"]}))).map_err(|e| format!("add: {e}"))?;
+          }
+          "delete" => {
+            w.as_mut().unwrap().delete_document(c["id"].as_str().unwrap_or("")).map_err(|e| format!("delete: {e}"))?;
+          }
+          "commit" => w.as_mut().unwrap().commit().map_err(|e| format!("commit: {e}"))?,
+          "rollback" => w.as_mut().unwrap().rollback().map_err(|e| format!("rollback: {e}"))?,
+          "compact" => {
+            w = None;
+            idx.compact().map_err(|e| format!("compact: {e}"))?;
+          }
+          "reopen" => {
+            w = None;
+            let mut o = idx::opts(&dir2, false);
+            o.create_if_missing = false;
+            idx = Index::open(o).map_err(|e| format!("reopen: {e}"))?;
+          }
+          _ => {}
+        }
+        let to = rec.lock().unwrap().ops.len();
+        let attempts: Vec<usize> = rec.lock().unwrap().manifest_writes[nman..].iter().map(|x| x.1).collect();
+        let pre_chunk = cur_chunk;
+        let pre_contents = cur_contents;
+        if !attempts.is_empty() {
+          // contents after the call, observed through the real reader
+          let now = live_bodies(&idx)?;
+          let id = match contents_table.iter().position(|x| *x == now) {
+            Some(i) => i,
+            None => {
+              contents_table.push(now);
+              contents_table.len() - 1
+            }
+          };
+          let r = rec.lock().unwrap();
+          let sh = r.shadow.clone();
+          for a in attempts.iter() {
+            manifests.push(manifest_entry(&r, *a, id, &sh));
+          }
+          cur_chunk = *attempts.last().unwrap();
+          cur_contents = id;
+        }
+        calls_rec.push(CallRec { from, to, pre_chunk, post_chunk: cur_chunk, attempts, pre_contents, post_contents: cur_contents, label: op.to_string() });
+      }
+      drop(w);
+      Ok(())
+    });
+    uninstall(&dir);
+    if let Err(e) | Ok(Err(e)) = result {
+      s.fail("history.call-failed", "a call of a fault-free history failed", case, json!(e));
+      return;
+    }
+    let r = rec.lock().unwrap();
+    for a in r.anomalies.iter() {
+      s.notes.push(format!("trace anomaly: {a}"));
+    }
+    let ops = r.ops.clone();
+    let chunks = r.chunks.clone();
+    drop(r);
+    s.add("trace.ops", ops.len() as u64);
+    // ---- (i) monitor
+    let windows: Vec<Value> = calls_rec
+      .iter()
+      .skip(1)
+      .map(|c| {
+        let mut allowed: BTreeSet<usize> = BTreeSet::new();
+        allowed.insert(c.pre_chunk);
+        for a in c.attempts.iter() {
+          allowed.insert(*a);
+        }
+        json!({"from": c.from, "to": c.to, "allowed": allowed.iter().collect::<Vec<_>>(), "settled": c.post_chunk, "label": c.label})
+      })
+      .collect();
+    let m = drv.call("C01", json!({"op":"trace","ops":ops,"manifests":manifests,"windows":windows}));
+    s.traces_validated += 1;
+    let checked = m["states_checked"].as_u64().unwrap_or(0);
+    s.add("monitor.states", checked);
+    s.cases += checked;
+    let viol = m["violations"].as_array().cloned().unwrap_or_default();
+    if m["ok"] != json!(true) {
+      s.disagree("fs.trace", case, json!(null), m.clone());
+    }
+    let monitor_failed = !viol.is_empty();
+    // ---- (ii) crash images
+    let stride = case["boundary_stride"].as_u64().unwrap_or(1).max(1) as usize;
+    let mut irng = Rng::new(case["image_seed"].as_u64().unwrap_or(1));
+    let mut found_failure = false;
+    // boundaries named by the monitor first
+    let mut boundaries: Vec<usize> = viol.iter().filter_map(|v| v["k"].as_u64().map(|k| k as usize)).collect();
+    for c in calls_rec.iter().skip(1) {
+      let mut k = c.from;
+      while k <= c.to {
+        boundaries.push(k);
+        k += stride;
+      }
+      boundaries.push(c.to);
+    }
+    let mut seen = BTreeSet::new();
+    for k in boundaries {
+      if !seen.insert(k) {
+        continue;
+      }
+      let call = match calls_rec.iter().skip(1).find(|c| c.from <= k && k <= c.to) {
+        Some(c) => c,
+        None => continue,
+      };
+      let st = drv.call("C01", json!({"op":"state","ops":ops,"k":k}));
+      let names = st["names"].as_array().cloned().unwrap_or_default();
+      let inodes = st["inodes"].as_array().cloned().unwrap_or_default();
+      let unsynced_names: Vec<String> = names.iter().filter(|n| n["hist"].as_array().map(|h| h.len() > 1).unwrap_or(false)).map(|n| n["name"].as_str().unwrap_or("").to_string()).collect();
+      let pending_inodes: Vec<usize> = inodes.iter().enumerate().filter(|(_, i)| i["pending"].as_array().map(|p| !p.is_empty()).unwrap_or(false)).map(|(i, _)| i).collect();
+      let nontrivial = !unsynced_names.is_empty() || !pending_inodes.is_empty();
+      // adversary choices
+      let mut choices: Vec<Value> = vec![
+        json!({"entry_default":"last","inode_default":"all","label":"keep-all"}),
+        json!({"entry_default":"first","inode_default":"none","label":"drop-all"}),
+        json!({"entry_default":"first","inode_default":"all","label":"drop-entries"}),
+        json!({"entry_default":"last","inode_default":"none","label":"drop-data"}),
+      ];
+      if nontrivial {
+        for n in unsynced_names.iter().take(8) {
+          choices.push(json!({"entry_default":"last","inode_default":"all","entries":{n.clone():0},"label":format!("drop-entry:{n}")}));
+          let hl = names.iter().find(|x| x["name"] == json!(n)).and_then(|x| x["hist"].as_array().map(|h| h.len())).unwrap_or(1);
+          choices.push(json!({"entry_default":"first","inode_default":"all","entries":{n.clone():hl - 1},"label":format!("keep-entry:{n}")}));
+        }
+        if let Some(i) = pending_inodes.last() {
+          let pend = inodes[*i]["pending"].as_array().cloned().unwrap_or_default();
+          if let Some(j) = pend.iter().rposition(|o| o.get("write").is_some()) {
+            let total = pend[j]["write"].as_u64().unwrap_or(0);
+            for t in [1u64, total / 2, total.saturating_sub(1)] {
+              if t > 0 && t < total {
+                let mut im = serde_json::Map::new();
+                im.insert(i.to_string(), json!([j, t]));
+                choices.push(json!({"entry_default":"last","inode_default":"all","inodes":im,"label":format!("tear:{i}@{t}")}));
+              }
+            }
+          }
+        }
+        for _ in 0..4 {
+          let mut em = serde_json::Map::new();
+          for n in names.iter() {
+            let hl = n["hist"].as_array().map(|h| h.len()).unwrap_or(1);
+            em.insert(n["name"].as_str().unwrap_or("").to_string(), json!(irng.below(hl)));
+          }
+          let mut im = serde_json::Map::new();
+          for i in pending_inodes.iter() {
+            let pl = inodes[*i]["pending"].as_array().map(|p| p.len()).unwrap_or(0);
+            im.insert(i.to_string(), json!([irng.below(pl + 1), Value::Null]));
+          }
+          choices.push(json!({"entries":em,"inodes":im,"label":"random"}));
+        }
+      } else {
+        choices.truncate(1);
+      }
+      for ch in choices {
+        let mut req = ch.clone();
+        req["op"] = json!("image");
+        req["ops"] = json!(ops);
+        req["k"] = json!(k);
+        req["manifests"] = json!(manifests);
+        let im = drv.call("C01", req);
+        let sub = json!({"case": case, "boundary": k, "call": call.label, "choice": ch});
+        s.case(&sub, nontrivial);
+        s.count(&format!("image.{}", ch["label"].as_str().unwrap_or("?").split(':').next().unwrap_or("?")));
+        if im["valid_choice"] != json!(true) {
+          s.disagree("fs.image-choice", &sub, json!(null), im.clone());
+          continue;
+        }
+        let idir = base.path().join("img");
+        let _ = std::fs::remove_dir_all(&idir);
+        materialise(&idir, &im["image"], &chunks);
+        let opened = guarded(|| -> Result<Contents, String> {
+          let mut o = idx::opts(&idir, false);
+          o.create_if_missing = false;
+          let idx = Index::open(o).map_err(|e| format!("open: {e}"))?;
+          live_bodies(&idx)
+        });
+        let real: Result<Contents, String> = match opened {
+          Ok(r) => r,
+          Err(p) => Err(format!("panic: {p}")),
+        };
+        // correspondence with the model's `recover`
+        let predicted: Option<&Contents> = im["recover"].as_u64().and_then(|c| contents_table.get(c as usize));
+        match (&real, predicted) {
+          (Ok(got), Some(want)) if got == want => {}
+          (Err(_), None) => {}
+          _ => s.disagree("fs.recover", &sub, json!({"real": real.clone().map_err(|e| e)}), json!({"recover": im["recover"], "contents": predicted})),
+        }
+        // finder: the property on the implementation alone
+        let pre = &contents_table[call.pre_contents];
+        let post = &contents_table[call.post_contents];
+        match &real {
+          Err(e) => {
+            found_failure = true;
+            s.fail("crash.unopenable", "a crash image does not reopen", &sub, json!({"error": e, "image_files": im["image"].as_object().map(|m| m.iter().map(|(k, v)| (k.clone(), !v.is_null())).collect::<BTreeMap<_, _>>())}));
+          }
+          Ok(got) => {
+            if got != pre && got != post {
+              found_failure = true;
+              s.fail("crash.mixed-contents", "contents after a crash are neither the state before the call in flight nor its complete result", &sub, json!({"got": got, "pre": pre, "post": post}));
+            } else if k == call.to && got != post {
+              found_failure = true;
+              s.fail("crash.lost-commit", "a call that returned success is lost by a crash right after it", &sub, json!({"got": got, "post": post}));
+            }
+          }
+        }
+      }
+    }
+    if monitor_failed {
+      // the proof's hypothesis does not hold on this trace
+      if found_failure {
+        s.count("monitor.violation-with-failing-image");
+      } else {
+        s.disagree("fs.monitor", case, json!({"note":"publication invariant violated on the recorded trace; no failing crash image was found among those tried"}), json!(viol));
+      }
+      s.notes.push(format!("monitor: {}", json!(viol)));
+    }
+  }
 }
